@@ -1,6 +1,7 @@
 package main
 
 import (
+	"sort"
 	"fmt"
 	"go/token"
 	"go/types"
@@ -571,7 +572,7 @@ func (e *Eng) siteSets(fr *Frame, kind, name string, st *State, g string, res *V
 		if s.Ordinal != 0 && s.Ordinal != fr.descN["set:"+name+":"+s.SetGhost] {
 			continue
 		}
-		env := e.funcEnv(fr)
+		env := e.siteEnv(fr)
 		if res != nil {
 			env.vars["res"] = res
 			if res.Tup != nil {
@@ -613,7 +614,7 @@ func (e *Eng) siteAsserts(fr *Frame, kind, name string, pos token.Pos, st *State
 		if s.Ordinal != 0 && s.Ordinal != ord {
 			continue
 		}
-		env := e.funcEnv(fr)
+		env := e.siteEnv(fr)
 		for k, v := range extra {
 			env.vars["$"+k] = v
 			if _, exists := env.vars[k]; !exists {
@@ -622,7 +623,11 @@ func (e *Eng) siteAsserts(fr *Frame, kind, name string, pos token.Pos, st *State
 		}
 		t := e.evalClause(s.Clause, env, st, fr.oldFor(st), fr)
 		e.siteHit(s)
-		e.oblige("site", kind+":"+name+"/"+s.Clause.Label, s.Clause.Props, pos, g, t)
+		if s.Lemma {
+			e.oblige("site-lemma", kind+":"+name+"/"+s.Clause.Label, s.Clause.Props, pos, g, t)
+		} else {
+			e.oblige("site", kind+":"+name+"/"+s.Clause.Label, s.Clause.Props, pos, g, t)
+		}
 	}
 }
 
@@ -657,8 +662,16 @@ func (e *Eng) lockOp(fr *Frame, op string, recv *Val, st *State, g string, pos t
 		} else {
 			st.held[key] = "R"
 		}
-		if rs := e.rootSpec(); rs != nil && rs.Monitor == key && st.monOld == nil {
+		if rs := e.rootSpec(); rs != nil && rs.Monitor == key && st.monOld == nil && len(e.inlineStack) == 0 {
 			st.monOld = st.clone()
+			// per-path record of the state right after acquisition (paths that never lock fall back to the entry state)
+			for _, k := range sortedKeys(st.monOld.reg) {
+				if strings.HasPrefix(k, "@") {
+					continue
+				}
+				e.regionSort["@old."+k] = e.regionSort[k]
+				st.reg["@old."+k] = st.monOld.reg[k]
+			}
 		}
 	case "Unlock":
 		if ls != nil {
@@ -701,6 +714,19 @@ func (e *Eng) releaseLock(st *State, ls *LockSpec, key string, base *Val, g stri
 	}
 	e.havocProtected(st, ls)
 	e.assumeLockInvs(ls, base, st, g)
+}
+
+// oldView: what old(...) means in a monitor function's postconditions: the state right after the lock was
+// acquired on paths that acquired it, the entry state on paths that returned before.
+func (e *Eng) oldView(st *State, entry *State) *State {
+	v := entry.clone()
+	for k := range e.regionSort {
+		if strings.HasPrefix(k, "@old.") {
+			base := strings.TrimPrefix(k, "@old.")
+			v.reg[base] = e.get(st, k, e.regionSort[k])
+		}
+	}
+	return v
 }
 
 // postView: the state a monitor function's postconditions are evaluated in (protected regions as of the release).
@@ -898,4 +924,32 @@ func (e *Eng) siteHit(s *SiteSpec) {
 		e.siteHits = map[*SiteSpec]int{}
 	}
 	e.siteHits[s]++
+}
+
+// siteEnv: names visible at a call site: parameters, captured and single-assignment locals, and the
+// loop variables (phis, by source name) of the loops the site is in.
+func (e *Eng) siteEnv(fr *Frame) *Env {
+	env := e.funcEnv(fr)
+	cur := fr.curBlock
+	if cur == nil {
+		return env
+	}
+	var doms []*ssa.BasicBlock
+	for b := range fr.loopOrd {
+		if b == cur || b.Dominates(cur) {
+			doms = append(doms, b)
+		}
+	}
+	sort.Slice(doms, func(i, j int) bool { return domDepth(doms[i]) < domDepth(doms[j]) })
+	for _, b := range doms {
+		for _, ins := range b.Instrs {
+			if p, ok := ins.(*ssa.Phi); ok && p.Comment != "" {
+				if v, ok := fr.vals[p]; ok {
+					env.vars[p.Comment] = v
+					env.vars[strings.ReplaceAll(p.Comment, ".", "_")] = v
+				}
+			}
+		}
+	}
+	return env
 }
